@@ -172,6 +172,17 @@ func (g *Generator) generateMockFieldAssignments(
 ) {
 	messageName := string(message.Desc.Name())
 
+	// Recursive message types: a message that is already being populated further up the
+	// call stack is left at its zero value, otherwise generation would never terminate.
+	if g.mockVisiting == nil {
+		g.mockVisiting = make(map[protoreflect.FullName]bool)
+	}
+	if g.mockVisiting[message.Desc.FullName()] {
+		return
+	}
+	g.mockVisiting[message.Desc.FullName()] = true
+	defer delete(g.mockVisiting, message.Desc.FullName())
+
 	for _, field := range message.Fields {
 		fieldName := field.GoName
 		fieldPath := messageName + "." + string(field.Desc.Name())
